@@ -338,6 +338,9 @@ class Extractor(object):
 
     def h_scope_attr(self, it, obj, attr):
         if obj.label == 'CURSCOPE':
+            if it.guarded_getattr:
+                it.effect('curscope_attr_guarded', attr)
+                return NotImplemented      # getattr(scope, attr, default): absent on some scope kinds -> default
             it.effect('curscope_attr', attr)
             if attr == 'returns':
                 v = obj.attrs['returns'] = []
